@@ -28,6 +28,11 @@ def main() -> int:
     if args.replay:
         with open(args.replay) as fh:
             body = json.load(fh)
+        if body["case"].get("kind") == "exception":
+            print(body["case"].get("traceback", ""))
+            print("recorded crash of an explorer task; re-run the check to reproduce")
+            print(f"VIOLATION property={args.pid} replay={os.path.abspath(args.replay)}")
+            return 1
         msgs = mod.replay(body["case"])
         print(json.dumps({"property": args.pid, "kind": body.get("kind"), "case": body["case"],
                           "observed": msgs}, indent=1, default=str))
